@@ -61,6 +61,10 @@ def work(item, opts):
                 if pc["population_size"] != case["cfg"]["population_size"] and universe.config_valid(case["opt"], pc):
                     case["prior_cfg"] = pc
                     break
+    # every sixth case (by a hash of optimizer and case label) runs with the optimizer's debug output switched on
+    import zlib
+    if "debug" not in case and zlib.crc32(f"{case['opt']}/{case.get('i')}".encode()) % 6 == 0:
+        case = dict(case, debug=True)
     from . import hooks
     hooks.cov_start()
     utils = bool(opts.get("utils"))
